@@ -578,15 +578,15 @@ def worker(f):
             # the peer has dropped the data connection (workers do not
             # touch the command connection): the session goes on
             connection.response("426", "data connection lost, transfer aborted")
-        except errors.PathIOError as exc:
+        except errors.PathIOError:
             # the file system failed while the worker was winding up after
             # abor (closing its file): abor is answered all the same
-            while exc is not None and not isinstance(exc, asyncio.CancelledError):
-                exc = exc.__context__
-            if exc is None:
+            if get_current_task() not in connection.aborting:
                 raise
             connection.response("451", "file system error")
             connection.response("226", "abort successful")
+        finally:
+            connection.aborting.discard(get_current_task())
 
     return wrapper
 
@@ -979,6 +979,7 @@ class Server:
             response=lambda *args: response_queue.put_nowait(args),
             acquired=False,
             restart_offset=0,
+            aborting=set(),
             passive_lock=asyncio.Lock(),
             _dispatcher=get_current_task(),
         )
@@ -1744,6 +1745,7 @@ class Server:
             await asyncio.sleep(0)
         workers = [w for w in connection.extra_workers if not w.done()]
         if workers:
+            connection.aborting.update(workers)
             for worker in workers:
                 worker.cancel()
             # a worker may take a while to wind up (closing its file): its
